@@ -179,8 +179,12 @@ type ModShard struct {
 }
 
 func (m *ModShard) FindForKey(key interface{}) (int, error) {
-	h := hack.Abs(NumValue(key))
-	return int(h % int64(m.ShardNum)), nil
+	// |key| mod ShardNum, computed without taking the absolute value of the key first: hack.Abs(math.MinInt64) is negative
+	h := NumValue(key) % int64(m.ShardNum)
+	if h < 0 {
+		h = -h
+	}
+	return int(h), nil
 }
 
 type NumRangeShard struct {
